@@ -23,7 +23,7 @@ sys.path.insert(0, os.path.join(VERIF, 'gen'))
 import nlgen
 from nlgen import Model, Rng
 
-PROP_MIN_THEOREMS = 49
+PROP_MIN_THEOREMS = 53
 
 # every type except cones / unary-encoding marker: natively accepted in run A
 BASE_ACCEPT = ['LinConRange', 'LinConLE', 'LinConEQ', 'LinConGE',
